@@ -833,18 +833,21 @@ class BlobStorage(BlobStorageMixin):
 
     def _packNonUndoing(self, packtime, referencesf):
         for oid, oid_path in self.fshelper.listOIDs():
-            exists = True
-            try:
-                utils.load_current(self, oid)
-            except (POSKeyError, KeyError):
-                exists = False
-
+            # (First the files, then the question whether the object
+            # exists: a transaction that finishes in between has its file
+            # left out here and its object found there.)
             files = []
             for filename in sorted(os.listdir(oid_path)):
                 filepath = os.path.join(oid_path, filename)
                 whatever, serial = self.fshelper.splitBlobFilename(filepath)
                 if not self._blob_in_progress(oid, serial):
                     files.append((filepath, serial))
+
+            exists = True
+            try:
+                utils.load_current(self, oid)
+            except (POSKeyError, KeyError):
+                exists = False
 
             if exists:
                 # Keep the latest (depends on ever-increasing tids) and
